@@ -16,7 +16,7 @@ from .ref import Ref
 
 # ---- generation -----------------------------------------------------------------------------------------------------
 
-def make_variants(rng, spec, n, feat=None, allow_file_variants=True):
+def make_variants(rng, spec, n, feat=None, allow_file_variants=True, prefer_file_variants=False):
     """roots over one spec that are 'related configs': other context, root namespace, part, or a copied file with a changed value"""
     roots = []
     base = S.gen_root(rng, spec, feat)
@@ -46,6 +46,8 @@ def make_variants(rng, spec, n, feat=None, allow_file_variants=True):
     while len(roots) < n and tries < 20:
         tries += 1
         r = rng.random()
+        if prefer_file_variants and rng.random() < 0.7:
+            r = 0.9
         root = copy.deepcopy(rng.choice(roots))
         if r < 0.35:
             root.pop('context', None)
@@ -108,7 +110,10 @@ def gen_history(rng, spec, roots, refs, opts):
             ri = rng.randrange(len(roots))
             c = f'c{cid}'
             cid += 1
-            steps.append({'op': 'build', 'chain': c, 'root': roots[ri], 'ri': ri})
+            bstep = {'op': 'build', 'chain': c, 'root': roots[ri], 'ri': ri, 'parameter_mode': opts.get('parameter_mode', True)}
+            if live and opts.get('p_shared_registry') and opts.get('parameter_mode', True) and rng.random() < opts['p_shared_registry']:
+                bstep['shared_from'] = rng.choice(list(live))       # Chain(config, shared_tasks=<registry of an earlier chain of this process>)
+            steps.append(bstep)
             live[c] = ri
             for _ in range(rng.randint(1, opts.get('max_requests', 5))):
                 c2 = rng.choice(list(live))
@@ -166,12 +171,13 @@ def gen_history(rng, spec, roots, refs, opts):
 # ---- model ----------------------------------------------------------------------------------------------------------
 
 class Obj:
-    __slots__ = ('oid', 'names', 'ref_name', 'ri', 'in_memory', 'forced')
+    __slots__ = ('oid', 'names', 'ref_name', 'ri', 'in_memory', 'forced', 'owner')
 
     def __init__(self, oid, ri):
         self.oid, self.ri, self.names, self.ref_name = oid, ri, [], None
         self.in_memory = False
         self.forced = False
+        self.owner = None
 
 
 class Model:
@@ -184,16 +190,28 @@ class Model:
         self.writer = {}        # location -> (session, cid, ri) of the run that stored it
         self.tainted = False
         self.ri_chain = None
+        self.pools = {}
 
-    def new_chain(self, sid, cid, ri, snap):
+    def new_chain(self, sid, cid, ri, snap, shared=False):
+        # task objects are identified by id() within one process (session); a chain built on another chain's registry shares objects with it
+        pool = self.pools.setdefault(sid, {}) if shared else {}
         objs_by_id = {}
         objs = {}
         for name, d in snap.items():
             o = objs_by_id.get(d['id'])
             if o is None:
-                o = objs_by_id[d['id']] = Obj(d['id'], ri)
-                o.ref_name = name
-            o.names.append(name)
+                o = pool.get(d['id'])
+                if o is None:
+                    o = Obj(d['id'], ri)
+                    o.ref_name = name
+                    o.owner = (sid, cid)
+                    fresh = True
+                else:
+                    fresh = False
+                objs_by_id[d['id']] = o
+                self.pools.setdefault(sid, {})[d['id']] = o
+            if o.owner == (sid, cid):
+                o.names.append(name)
             objs[name] = o
         self.chains[(sid, cid)] = {'ri': ri, 'objs': objs}
         return objs
@@ -221,7 +239,7 @@ class Model:
         faulty = fault_task is not None and fault_task[0] in o.names
         if faulty and fault_task[1] == 'raise_before':
             return False
-        och = self.ri_chain.get(o.ri, ch) if self.ri_chain else ch    # MultiChain: names of a shared object belong to the member that owns it
+        och = self.ri_chain.get(o.ri, ch) if self.ri_chain else self.chains.get(o.owner, ch)    # names of a shared object belong to the chain that created it
         for target in t['read_targets']:
             if not self.request(och, och['objs'][target], runs, fault_task):
                 return False
@@ -277,6 +295,14 @@ def evaluate_history(lab, spec, roots, refs, sessions, counters, want):
         if prop in want:
             disc.append({'prop': prop, 'tag': tag, 'what': what})
 
+    def tinfo(n, k):
+        # a run of an object shared with another chain is recorded under the names of the chain that created it
+        for r_ in refs:
+            t_ = r_.tasks.get(n)
+            if t_ is not None and t_['key'] == k:
+                return t_
+        return next(t_ for r_ in refs for t_ in r_.tasks.values() if t_['key'] == k and t_['full'].split('::')[-1] == n.split('::')[-1])
+
     for sid, sess in enumerate(sessions):
         r = lab.run(sess['steps'], spawn=sess['spawn'], hashseed=sess.get('hashseed'), timeout=180)
         prob = session_problem(r)
@@ -296,7 +322,9 @@ def evaluate_history(lab, spec, roots, refs, sessions, counters, want):
                 if not o['ok']:
                     add('C08', 'build', f'{here}: valid configuration failed to build: {o.get("exc")}: {o.get("msg")}')
                     return disc, None
-                model.new_chain(sid, step['chain'], step['ri'], o['snapshot']['tasks'])
+                model.new_chain(sid, step['chain'], step['ri'], o['snapshot']['tasks'], shared=bool(step.get('shared_from')))
+                if step.get('shared_from'):
+                    counters['chains_on_shared_registry'] += 1
                 counters['chains_built'] += 1
                 if obs_runs:
                     add('C04', 'runs_on_build', f'{here}: building a chain executed run of {[x["task"] for x in obs_runs]}')
@@ -359,7 +387,7 @@ def evaluate_history(lab, spec, roots, refs, sessions, counters, want):
                             if w['task'] != step['task']:
                                 counters['prov_loaded_written_under_other_name'] += 1
                         if any(not ch['objs'][m].in_memory and not (model.persisting(ch['objs'][m]) and model.loc(ch['objs'][m]) in model.store)
-                               for m in ref.ancestors(ob.ref_name)):
+                               for m in ref.ancestors(step['task'])):
                             counters['loads_with_missing_upstream'] += 1
                 # C01: value
                 exp_digest = ref.tasks[step['task']]['vdigest']
@@ -408,19 +436,19 @@ def evaluate_history(lab, spec, roots, refs, sessions, counters, want):
                         elif ev in ('shutil.move', 'os.rename') and ' -> ' in path:
                             written.add(path.split(' -> ')[1])
                     for (n, k, names) in exp_runs:
-                        rp = ref.tasks[n]['rel_path']
+                        rp = tinfo(n, k)['rel_path']
                         if rp and rp not in written and not any(w.startswith(rp + '/') for w in written):
                             add('C07', 'not_replaced', f'{here}: task {n} ran but did not write its stored result {rp}')
                         counters['replacement_checks'] += 1
                 for (n, k, names) in exp_runs:
-                    t = ref.tasks[n]
+                    t = tinfo(n, k)
                     if t['rel_path']:
                         writers[t['rel_path']] = {'sid': sid, 'root': roots[ch['ri']], 'task': n}
                 if not ok:
                     # every run the model saw starting in a failed request is an attempt (a dependant whose argument evaluation
                     # failed never reaches its run body, but its log was already re-opened)
                     for (n_, k_, _) in exp_runs:
-                        latest[('attempt', ref.tasks[n_]['slug'], k_)] = f'failed@{sid}:{o["step"]}'
+                        latest[('attempt', tinfo(n_, k_)['slug'], k_)] = f'failed@{sid}:{o["step"]}'
                 note_runs(latest, o['runs'], ref, ch, sid, failed_task=None if ok else armed)
                 continue
             if op == 'force':
@@ -460,7 +488,7 @@ def evaluate_history(lab, spec, roots, refs, sessions, counters, want):
                     add('C07', 'recompute_runs', f'{here}: force(recompute={bool(step.get("recompute"))}) executed {got}, expected exactly {exp}')
                 counters['runs_observed'] += len(got)
                 for (n, k, names_) in exp_runs:
-                    t = ref.tasks[n]
+                    t = tinfo(n, k)
                     if t['rel_path']:
                         writers[t['rel_path']] = {'sid': sid, 'root': roots[ch['ri']], 'task': n}
                 step['_expected_deleted'] = deleted
@@ -473,7 +501,7 @@ def evaluate_history(lab, spec, roots, refs, sessions, counters, want):
                         if path in locs:
                             removed.add(path)
                 # recomputed directory results are replaced by remove+move: those are not deletions
-                rewritten = {ref.tasks[n]['rel_path'] for (n, k, _) in exp_runs if ref.tasks[n]['rel_path']}
+                rewritten = {tinfo(n, k)['rel_path'] for (n, k, _) in exp_runs if tinfo(n, k)['rel_path']}
                 removed_net = {p for p in removed if p not in rewritten}
                 if removed_net != set(deleted) - rewritten:
                     add('C07', 'deleted_set', f'{here}: stored results removed {sorted(removed_net)}, expected exactly {sorted(set(deleted) - rewritten)} '
@@ -487,7 +515,7 @@ def evaluate_history(lab, spec, roots, refs, sessions, counters, want):
                     elif ev in ('shutil.move', 'os.rename') and ' -> ' in path:
                         written.add(path.split(' -> ')[1])
                 for (n, k, _) in exp_runs:
-                    rp = ref.tasks[n]['rel_path']
+                    rp = tinfo(n, k)['rel_path']
                     if rp and rp not in written and not any(w.startswith(rp + '/') for w in written):
                         add('C07', 'not_replaced', f'{here}: recomputed task {n} did not write its stored result {rp}')
                     counters['replacement_checks'] += 1
